@@ -9,6 +9,7 @@ RULE = ("(category, string) pairs: all strings over a per-category adversarial a
         "within +-2 of every 16/32-bit and declared-range boundary, strings around the declared width in characters, "
         "enumerations, every category; values built from UUIDs and language lists; non-trivial = not the empty string "
         "/ not null; distinct = distinct commands")
+RULE = RULE + ('  Also through the package: UPDATEs whose condition selects no row (or whose table is empty) are validated all the same; string columns that carry a value range refuse integers inside that range.')
 ASSUMPTIONS = ["str::parse::<i16/i32/u16> accept exactly [+-]?digits (unsigned: +?digits) within range",
                "Uuid::parse_str on a 36-byte slice accepts exactly 8-4-4-4-12 hex digits (uuid 1.x parser, read in source)"]
 
@@ -189,6 +190,9 @@ def gen_cases(rng, tier, info):
         for null in (False, True):
             scols.append(mkcol(("str", w), null))
             scols.append(mkcol(("str", w), null, enum=["a", "bb", "ééé", ""]))
+    # a string column may carry a value range (it is stored in _Validation like any other): integers stay invalid
+    scols.append(mkcol(("str", 8), True, rng=(0, 10)))
+    scols.append(mkcol(("str", 0), False, rng=(-5, 70000), cat="Text"))
     for cat in CATS:
         scols.append(mkcol(("str", 6), False, cat=cat))
         scols.append(mkcol(("str", 0), True, cat=cat, enum=["1", "A", "a.b", "{", "1.2"]))
